@@ -7,6 +7,7 @@ import (
 	"math/rand"
 	"runtime"
 	"sync"
+	"sync/atomic"
 	"testing"
 
 	"github.com/gauss-project/aurorafs/pkg/bmt"
@@ -48,6 +49,9 @@ type hashJob struct {
 	Split   string `json:"split_kind"`
 	Pieces  []int  `json:"pieces"`
 	ViaSum  bool   `json:"via_sum"`
+	// Scratch: every piece is copied into ONE reused buffer, written from there, and the
+	// buffer is overwritten as soon as Write has returned (io.Writer: Write must not retain p)
+	Scratch bool `json:"written_through_a_reused_scratch_buffer"`
 	data    []byte
 	span    []byte
 }
@@ -176,6 +180,8 @@ func lenClass(n, capBytes int) string {
 // ---------------------------------------------------------------------------------
 // driving one Reset→SetHeader→Write*→Hash cycle on a hasher and judging it
 
+var scratchCycles atomic.Int64 // cycles written through a reused scratch buffer
+
 func runCycle(h *bmt.Hasher, j *hashJob) (digest []byte, problem string) {
 	h.Reset()
 	if j.HdrKind == "len" && j.ViaSum {
@@ -184,8 +190,28 @@ func runCycle(h *bmt.Hasher, j *hashJob) (digest []byte, problem string) {
 		h.SetHeader(j.span)
 	}
 	off := 0
+	j.Scratch = len(j.Pieces) > 1 && (j.Len+len(j.Pieces))%2 == 1
+	var scratch []byte
+	if j.Scratch {
+		scratchCycles.Add(1)
+		for _, w := range j.Pieces {
+			if w > len(scratch) {
+				scratch = make([]byte, w)
+			}
+		}
+	}
 	for _, w := range j.Pieces {
-		n, err := h.Write(j.data[off : off+w])
+		piece := j.data[off : off+w]
+		if j.Scratch {
+			copy(scratch, piece)
+			piece = scratch[:w]
+		}
+		n, err := h.Write(piece)
+		if j.Scratch {
+			for i := range scratch {
+				scratch[i] = 0xA5
+			}
+		}
 		if err != nil {
 			return nil, fmt.Sprintf("Write returned error %v", err)
 		}
@@ -268,6 +294,7 @@ func TestSmallPoolEveryLengthC(t *testing.T) { smallPoolEveryLength(t, 2) }
 func smallPoolEveryLength(t *testing.T, shard int) {
 	run := obs.Start(t, "C03")
 	defer run.Done()
+	defer func() { run.Stat("cycles_through_reused_scratch_buffer", scratchCycles.Swap(0)) }()
 	run.Rule("128-segment pool (capacity 3): EVERY data length 0..4096, each with 3 write splits (one write; random cuts incl. zero-length writes; cuts around 32/64-byte boundaries or 1..3-byte writes) x header kinds {zero,len,2^64-1,random} (quick: one header kind per split, rotating with the length; thorough: all four); hashers alternately fresh from the pool and the same object after Reset; distinct = (length, split kind); blocks of 64 lengths alternate no / seeded-yield / yield+sleep perturbation at the H8 points",
 		"abandoning a hasher mid-hash is API misuse and never done", "headers are always set with 8 bytes")
 	installHooks()
@@ -375,6 +402,7 @@ func prodLengths(rng *rand.Rand, capB int, nRandom int, denseTail int, thinTail 
 func TestProdPoolBoundaries(t *testing.T) {
 	run := obs.Start(t, "C03")
 	defer run.Done()
+	defer func() { run.Stat("cycles_through_reused_scratch_buffer", scratchCycles.Swap(0)) }()
 	run.Rule("production pool bmtpool (8192 segments, 256 KiB): lengths 0,1,31..33,63..65,95..97,127..129, 2^k*32-1/+0/+1 (k=1..13), cap-64..cap (quick: thinned to the segment/section edges and every 8th), plus random lengths; 3 write splits per length (quick: 1 split for most lengths above 8 KiB) with rotating header kinds; hashers from bmtpool.Get/Put, every third reused after Reset; distinct = (length, split kind)")
 	installHooks()
 	defer func() { cur = nil }()
@@ -442,6 +470,7 @@ func TestReuseProdPool(t *testing.T)  { reuse(t, 1) }
 func reuse(t *testing.T, which int) {
 	run := obs.Start(t, "C03")
 	defer run.Done()
+	defer func() { run.Stat("cycles_through_reused_scratch_buffer", scratchCycles.Swap(0)) }()
 	run.Rule("reuse sequences: one pool of capacity 1 (so Get always returns the same tree); each sequence is 12..24 complete cycles whose lengths follow adversarial patterns (full 0xff/random chunk then short; shrinking; growing; same length twice; partial write + more writes; zero-length writes; write to capacity in two pieces; empty input after long input); between cycles the hasher is either Reset and reused or Put back and fetched again; distinct = (pool, pattern, reuse way)",
 		"every cycle is complete: Reset, SetHeader (8 bytes), writes, Hash/Sum")
 	installHooks()
@@ -569,6 +598,7 @@ func reuse(t *testing.T, which int) {
 func TestArrivalOrders(t *testing.T) {
 	run := obs.Start(t, "C03")
 	defer run.Done()
+	defer func() { run.Stat("cycles_through_reused_scratch_buffer", scratchCycles.Swap(0)) }()
 	run.Rule("128-segment pool, one hash at a time, recording at the H8 points the order in which section goroutines start and reach joins, under seeded yields/sleeps and GOMAXPROCS 2/16; distinct = (GOMAXPROCS, length class, perturbation); monitor counters report distinct arrival-order signatures")
 	installHooks()
 	defer func() { cur = nil }()
@@ -641,6 +671,7 @@ func TestConcurrentProdPool(t *testing.T)  { concurrentPoolUsers(t, "bmtpool8192
 func concurrentPoolUsers(t *testing.T, only string) {
 	run := obs.Start(t, "C03")
 	defer run.Done()
+	defer func() { run.Stat("cycles_through_reused_scratch_buffer", scratchCycles.Swap(0)) }()
 	run.Rule("phases of W goroutines each looping Get -> SetHeader -> Write* -> Hash -> (sometimes Reset and a second cycle) -> Put on a pool with fewer trees than goroutines: private 128-segment pool (4 trees, 48 goroutines) and the production bmtpool (32 trees, 40 goroutines; at most one >4 KiB input in flight because the race detector caps live goroutines at 8128); GOMAXPROCS 2 and 16; with and without unsynchronised random yields/sleeps at the H8 points; expected digests precomputed; distinct = (pool, GOMAXPROCS, perturbation) phase",
 		"the perturbing callback adds no synchronisation between section goroutines")
 	installHooks()
